@@ -3,7 +3,7 @@ from mirsym.harness import Check
 from . import scen
 from .C01 import ASSUME
 
-QUICK = ["seq2", "if_else_first", "two_if", "catch_act", "catch_step", "msg_set"]
+QUICK = ['seq2', 'two_if', 'catch_act', 'msg_set', 'step_if']
 
 
 def main(tier, seed):
@@ -11,11 +11,14 @@ def main(tier, seed):
     jobs = []
     names = QUICK if tier == "quick" else list(scen.catalogue().keys())
     k = 2 if tier == "quick" else 3
+    parts = 4 if tier == "quick" else 16
     for n in names:
-        jobs.append(("props.flow", "run_scenario", (n, dict(policy="fifo", k=k, oracles=("c08",), targets="acts", max_paths=1500 if tier == "quick" else 20000, seed=seed), "C08")))
-        jobs.append(("props.flow", "run_scenario", (n, dict(policy="lifo", k=1, oracles=("c08",), targets="all", max_paths=600, seed=seed), "C08")))
+        for i in range(parts):
+            jobs.append(("props.flow", "run_scenario", (n, dict(policy="fifo", k=k, oracles=("c08",), targets="acts", part=(i, parts),
+                                                                 max_paths=600 if tier == "quick" else 20000, seed=seed), "C08")))
+        jobs.append(("props.flow", "run_scenario", (n, dict(policy="lifo", k=1, oracles=("c08",), targets="all", max_paths=400, seed=seed), "C08")))
     c.run_jobs(jobs)
     return c.finish(
-        rule="one path = scenario x valuation class x (target, symbolic action kind) per script step; every write to a task state cell is an oracle witness",
+        rule="one path = scenario x valuation class of the symbolic inputs x (target task, symbolic action kind) per script step x schedule",
         assumptions=ASSUME + ["'reported terminal' = a task event was emitted for the task while in a terminal state"],
-        bounds=dict(scenarios=names, script_len=k, action_kinds=10, targets="every act task (fifo runs) / every task (lifo runs)"))
+        bounds=dict(scenarios=names, script_len=k, action_kinds=10, targets="every act task (fifo runs, k steps) / every task (lifo runs, 1 step)"))
